@@ -34,4 +34,15 @@ Options(plain, opt) ==    \* each: [evs, rb (read-back event), widths]
        THEN "C09: size options changed ids, payloads or their order"
   ELSE IF ~WidthsOk(opt.rb.input, opt.rb.items, opt.widths) THEN "C09: a requested size-field width (or unknown size) was not honoured exactly"
   ELSE ""
+\* explicit widths at the edge of what they can hold: honoured exactly, or the element is rejected because the width cannot
+\* represent its size as a known size - never widened silently, never rejected when it fits
+Representable(e) == SizeField(Len(PayloadOf(e.ty, e.val)), e.width).t = "ok"
+WidthExact(plain, opt) ==
+  IF \E i \in 1..Len(opt.evs) : LET e == opt.evs[i] IN e.res = "ok" /\ e.k = "elem" /\ e.width > 0 /\ ~Representable(e)
+  THEN "C09: a size that the requested width cannot represent was accepted (the width cannot have been honoured)"
+  ELSE IF AllOk(opt.evs) THEN Options(plain, opt)
+  ELSE IF \E i \in 1..Len(opt.evs) : LET e == opt.evs[i] IN
+            e.res # "ok" /\ ~(e.res = "size" /\ e.k = "elem" /\ e.width > 0 /\ ~Representable(e))
+       THEN "C09: a size option that can be honoured was rejected, or a call was rejected for another reason"
+  ELSE ""
 =============================================================================
